@@ -121,6 +121,10 @@ def model_zones():
         'Model/MidnightGap': ModelTz('Model/MidnightGap', [(None, -3 * H, 0, 'BRT'), (U(2000, 10, 1, 3, 0), -2 * H, H, 'BRST'), (U(2001, 2, 18, 2, 0), -3 * H, 0, 'BRT')]),
         # a shift at local New Year of the last year, far east of Greenwich: the scan must not stop at the local year
         'Model/NewYear': ModelTz('Model/NewYear', [(None, 13 * H, 0, 'WST'), (U(2001, 12, 31, 11, 0), 14 * H, 0, 'WSST')]),
+        # the zone crosses the date line (a whole local day is skipped), later it has ordinary DST: a scan that steps the wall clock
+        # instead of the instant is a day out of step from then on
+        'Model/DateLine': ModelTz('Model/DateLine', [(None, -10 * H, 0, 'SST'), (U(2000, 5, 10, 10, 0), 14 * H, 0, 'WSST'), (U(2000, 9, 23, 10, 0), 15 * H, H, 'WSDT'),
+                                                      (U(2001, 4, 7, 10, 0), 14 * H, 0, 'WSST'), (U(2001, 9, 29, 10, 0), 15 * H, H, 'WSDT')]),
     }
 
 
